@@ -32,6 +32,21 @@ LEVELS = {
         "note": "trusted: jwx (structural validation, algorithm classification, parsing, key generation, signatures) as model inputs",
         "technique": "Coq proof: decision procedure <-> approved-pair spec; generated allow-list Tie; exhaustive correspondence",
     },
+    "C03": {
+        "text": "Executable Coq model of Parse (reflective partition over struct descriptors regenerated from the Go source + every UnmarshalOrdered override) and of json.Marshal (inlineFriendlyMarshalJSON + every MarshalJSON override); theorems for all documents: typed fields win, every key exactly once, keys sorted; every key the schema does not name survives once and unchanged at pipeline, command-step, group, matrix, cache level; wait/input/trigger/unknown contents verbatim; command/commands collapse to one member; plugin shape and mapping order. Tied to the library by differential correspondence on grammar-generated documents in three renderings and a marker-based no-data-loss oracle on both JSON and YAML output.",
+        "note": "trusted: YAML/JSON text layer, float formatting oracle, translator for struct tags; the normal form is the model composition, not a separate declarative nf",
+        "technique": "Coq proof: losslessness lemmas over the partition/merge model for all documents; differential correspondence model vs Parse+json.Marshal",
+    },
+    "C07": {
+        "text": "Coq theorems over all node graphs (cyclic or not): DecodeYAML/rangeYAMLMap terminate within the model's fuel (bounded time, measure = nodes not yet in merged/seen), a node reaching itself through value edges never decodes (value cycles rejected), and the per-mapping merge rules: merged pairs never take an explicit or earlier-merged key, first occurrence wins, nothing else dropped; merge-cycle tolerance and precedence examples by computation. Tied to ordered/yaml.go by correspondence on yaml.v3 node graphs of generated texts (cycles included), with oracles for cycle verdicts, copy independence and agreement with yaml.v3's decoder.",
+        "note": "trusted: yaml.v3 parser and per-scalar decoding as inputs; denotational equality with the merge spec is checked by oracle, not proved",
+        "technique": "Coq proof: termination measure + cycle rejection over arbitrary graphs, merge-filter lemmas; differential correspondence on node graphs",
+    },
+    "C13": {
+        "text": "Coq theorems for every decoded document: the parse model is total and its fuel bound suffices (more fuel changes nothing); a usable result has exactly one step per input entry, in order, recursively inside groups; unknown steps hold their input verbatim and the warning counts exactly the unknown steps at every depth; a usable result marshals when the document has no non-finite float, and a refutation witness shows the hypothesis is needed (known finding F5). Tied to Parse by correspondence on documents with injected type errors at every grammar position; byte-level mutation stream with watchdog for the scanner part.",
+        "note": "trusted: yaml.v3 scanner/parser; the byte-level quantifier is covered by testing only (stated as partial)",
+        "technique": "Coq proof: totality with explicit fuel bound, completeness and warning-count theorems by induction; differential correspondence incl. malformed stream",
+    },
 }
 
 REASONS_PENDING = "check not built yet in this revision (work in progress; see DESIGN.md §10 build order)"
